@@ -745,6 +745,16 @@ impl G {
         let (ok, _pos, label) = self.matches_why(&t, Mode::Permissive);
         if ok {
             "none".into()
+        } else if label.ends_with("too-many") {
+            // too many lines: with or without a leading identifier line are different situations
+            let first = if t == "/" || t.starts_with("/\n") {
+                "lone-slash-first"
+            } else if t.starts_with('/') {
+                "slash-first"
+            } else {
+                "plain-first"
+            };
+            format!("at-{label}:{first}")
         } else {
             format!("at-{label}")
         }
